@@ -205,7 +205,11 @@ def _iter_definition_exprs_from_lists(exprlist):
                     yield from check_expr(testlist_comp)
                     return
             elif child.children[0] == '[':
-                yield testlist_comp
+                testlist_comp = child.children[1]
+                if testlist_comp.type == 'testlist_comp':
+                    yield from _iter_definition_exprs_from_lists(testlist_comp)
+                else:
+                    yield from check_expr(testlist_comp)
                 return
         yield child
 
